@@ -278,6 +278,9 @@ def modfunc(ex, state, mod, name, args, kw, line):
         if isinstance(a, SArr):
             return npmodel.conj(ex, state, a, line)
         return SNum(name)
+
+    if name in ('true_divide', 'divide', 'power', 'log', 'cos', 'sin', 'floor', 'ceil') and not any(isinstance(a, SArr) for a in args):
+        return SNum(name)
     if name == 'reshape':
         return npmodel.reshape(ex, state, args[0], args[1], line)
     if name == 'dot':
@@ -353,16 +356,53 @@ def np_prod(ex, state, v, line):
         raise Unsupported('np.prod of %s at line %d' % (type(v).__name__, line))
     if v.items is not None:
         return npmodel.prod(v.items)
+    so = getattr(v, 'slice_of', None)
+    if so is not None and v.kind == 'int':
+        return prod_range(ex, state, so[0], so[1], so[2], line)
     # symbolic length: p is uninterpreted except for what holds for every product of non-negative integers:
     #   p >= 0,  (p == 1  <=>  all factors == 1),  (p == 0  <=>  some factor == 0)
     from vt.e1.symexec import FA
     f, n = v.fn, zi(v.length)
     ex.ctx.oblige(state, 'prod-of-nonnegative-ints', line, FA(0, n, lambda j: zi(f(j)) >= 0))
-    p = fresh('prod')
+    p = prod_range(ex, state, v.snapshot(), 0, n, line) if v.kind == 'int' else fresh('prod')
     state.assume(p >= 0)
     state.assume((p == 1) == FA(0, n, lambda j: zi(f(j)) == 1))
     state.assume((p >= 1) == FA(0, n, lambda j: zi(f(j)) >= 1))
     return p
+
+
+_PROD_FUNS = {}
+AXIOMS = []      # global axioms (definitions of uninterpreted spec functions); included in every solver query
+
+
+def prod_fun(lst):
+    """uninterpreted P(a, b) = prod(lst[a:b]) for one list *value* (keyed by the element function of its snapshot)"""
+    key = id(lst.fn)
+    if key not in _PROD_FUNS:
+        from vt.e1.values import fresh_fun
+        P = fresh_fun('prod', z3.IntSort(), z3.IntSort(), z3.IntSort())
+        _PROD_FUNS[key] = (P, lst)
+    return _PROD_FUNS[key][0]
+
+
+def prod_instance(lst, a, b):
+    """ground instances of the definition of P = prod(lst[a:b]) (no quantified axioms: they make sat-queries diverge)"""
+    P = prod_fun(lst)
+    a, b = zi(a), zi(b)
+    return [P(a, a) == 1, z3.Implies(b > a, P(a, b) == P(a, b - 1) * zi(lst.fn(b - 1))), z3.Implies(b <= a, P(a, b) == 1), P(a, b) >= 0]
+
+
+def prod_range(ex, state, lst, a, b, line):
+    """np.prod(lst[a:b]) with the unfolding axioms instantiated at the bounds that occur:
+         P(a, a) = 1;   b > a  =>  P(a, b) = P(a, b-1) * lst[b-1];   P >= 1 for lists of positive dimensions (assumed from wf)"""
+    P = prod_fun(lst)
+    a, b = zi(a), zi(b)
+    f = lst.fn
+    state.assume(P(a, a) == 1)
+    state.assume(z3.Implies(b > a, P(a, b) == P(a, b - 1) * zi(f(b - 1))))
+    state.assume(z3.Implies(b <= a, P(a, b) == 1))
+    state.assume(P(a, b) >= 0)
+    return P(a, b)
 
 
 def qr_rq(ex, state, name, a, kw, line):
